@@ -53,6 +53,7 @@ SCHEDS = {
     "unc": ({"kind": "unc"}, 1),
     "fcfs": ({"kind": "greedy", "sort": "fcfs"}, 1),
     "sparse": ({"kind": "script", "prog": {"rule": "max", "len": 1}}, None),
+    "look": ({"kind": "script", "prog": {"rule": "max", "len": 1, "lookahead": True}}, 1),
 }
 NOISE = ([0.0], [3.0], [-3.0], [1.0, -2.0, 0.1])
 
@@ -72,6 +73,8 @@ def space(tier, seed):
             for sk in SCHEDS:
                 for period in (1, 5, 7.5):
                     if not thorough and len(ss) == 2 and period == 5 and sk in ("alt", "sparse"):
+                        continue
+                    if sk == "look" and period != 5:
                         continue
                     for npat in (NOISE if noisy else NOISE[:1]):
                         spec, k = SCHEDS[sk]
